@@ -92,7 +92,7 @@ pub fn base_cfg(tier: Tier) -> Cfg {
     let mut c = Cfg::default();
     c.query_timeout_ms = match tier {
         Tier::Quick => 20_000,
-        Tier::Thorough => 600_000,
+        Tier::Thorough => 120_000,
     };
     c
 }
